@@ -219,4 +219,31 @@ theorem callMod_invM (s : State) (id : CtxId) (svc : SvcName) (prov cons : Addr)
         obtain ⟨y, hy, _⟩ := h.x.reqCtx r q hq
         exact hfresh (hr ▸ h.x.used r.ctx (by rw [hy]; rfl))
 
+/-! ### the keeper-level binding of the module's provider keeps every invariant -/
+/-- the invariants do not look at the reservation (`cfg.modsvc`) -/
+theorem Inv.setModsvc {s : State} (h : Inv s) (m : Option SvcName) : Inv { s with cfg := { s.cfg with modsvc := m } } :=
+  { static := ⟨h.static.ed, h.static.ec, h.static.dc, h.static.mult_pos, h.static.maxT_pos, h.static.tax_lt,
+               h.static.slash_le, h.static.complaint_pos, h.static.arbitration_pos⟩
+    b := ⟨h.b.backed, h.b.ownerOk, h.b.ownerOf, h.b.provIdx, h.b.bindIdx, h.b.priced, h.b.pricingOnly, h.b.defined,
+          h.b.ownerHas, h.b.minDep⟩
+    x := ⟨h.x.ctxWF, h.x.ctxCons, h.x.newMirror, h.x.expMirror, h.x.single, h.x.newFuture, h.x.expFuture, h.x.runningQ,
+          h.x.used, h.x.reqCtx, h.x.activeReq, h.x.activeMirror, h.x.respReq, h.x.activeNodup, h.x.bRunExp,
+          h.x.activeRunning, h.x.counts⟩
+    m := ⟨h.m.escrow, h.m.earnedK, h.m.ownerEarnedK, h.m.ownerSum, h.m.earnedOwned⟩
+    bound := h.bound }
+
+/-- `modBind` (the application binding the provider of its module service through the keeper) preserves `Inv` -/
+theorem modBind_inv (s : State) (svc : SvcName) (p o : Addr) (dep : Option Nat) (text : PricingText) (qos : Nat)
+    (h : Inv s) (hw : ¬ s.modAcct o) : Inv (modBind s svc p o dep text qos).1 := by
+  have h1 : Inv (bind { s with cfg := { s.cfg with modsvc := none } } svc p o dep text qos).1 :=
+    bind_inv _ svc p o dep text qos (h.setModsvc none) hw
+  have hcfg : (bind { s with cfg := { s.cfg with modsvc := none } } svc p o dep text qos).1.cfg =
+      { s.cfg with modsvc := none } := (bind_frame _ svc p o dep text qos).1
+  have h2 := h1.setModsvc s.cfg.modsvc
+  have e : ({ (bind { s with cfg := { s.cfg with modsvc := none } } svc p o dep text qos).1 with
+      cfg := { (bind { s with cfg := { s.cfg with modsvc := none } } svc p o dep text qos).1.cfg with modsvc := s.cfg.modsvc } } : State)
+      = (modBind s svc p o dep text qos).1 := by
+    rw [hcfg]; rfl
+  rw [← e]; exact h2
+
 end SM
